@@ -28,123 +28,162 @@ def run(ctx) -> None:
     render, vn, vl = dr.methods.get("render"), dr.methods.get("_viz_node"), dr.methods.get("_viz_link")
     if not (render and vn and vl):
         ctx.broken("anchor vanished: DotRenderer.render/_viz_node/_viz_link")
-    # ---- R1
-    roots = [c for c in calls_in(render, "_viz_node")]
-    ok = len(roots) == 1 and u(roots[0].args[0]) == "hugr.root" and not any(roots[0] in list(ast.walk(n)) for n in ast.walk(render) if isinstance(n, (ast.For, ast.If, ast.While)))
-    ctx.check(ok, "C20.R1", "render: starts at the root", m.path, render.lineno, "rendering must draw the hierarchy from hugr.root", render)
-    g = CFG(real_body(vn))
-    node_stmts = g.where(lambda s: any(call_name(c) == "node" and isinstance(c.func, ast.Attribute) and u(c.func.value) in ("graph", "sub") for c in calls_in(s))
-                         and not isinstance(s, (ast.With,)))
-    node_calls = [c for c in calls_in(vn) if call_name(c) == "node" and u(c.func.value) in ("graph", "sub")]
-    ok = len(node_calls) == 2
-    # exactly one node statement on every path: the two are on different branches of the children test
-    # locals that stand for hugr.children(node) (assignment or walrus)
-    ch_alias = {"hugr.children(node)"}
-    for n in ast.walk(vn):
-        if isinstance(n, ast.Assign) and isinstance(n.targets[0], ast.Name) and u(n.value) == "hugr.children(node)":
-            ch_alias.add(n.targets[0].id)
-        if isinstance(n, ast.NamedExpr) and u(n.value) == "hugr.children(node)":
-            ch_alias.add(n.target.id)
+    from ..paths import summaries
+    from ..rulekit import unold
+    from ..tmpl import T, thas, tmatch
+    DQ = f"{R}.DotRenderer"
+    rp = [a.arg for a in render.args.args]
+    hp_ = rp[1]                                   # the hugr parameter of render
+    np_, nh_, ng_ = [a.arg for a in vn.args.args[1:4]]      # node, hugr, graph parameters of _viz_node
 
-    def is_children_test(t):
-        if isinstance(t, ast.NamedExpr):
-            return u(t.value) == "hugr.children(node)"
-        s_ = u(t)
-        return s_ in ch_alias or any(s_ == f"len({a}) > 0" for a in ch_alias)
-    branch = [n for n in ast.walk(vn) if isinstance(n, ast.If) and is_children_test(n.test)]
-    ok = ok and len(branch) == 1
-    if ok:
-        in_body = [c for c in node_calls if any(c in list(ast.walk(s)) for s in branch[0].body)]
-        in_else = [c for c in node_calls if any(c in list(ast.walk(s)) for s in branch[0].orelse)]
-        ok = len(in_body) == 1 and len(in_else) == 1 and u(in_body[0].func.value) == "sub" and u(in_else[0].func.value) == "graph"
-    ctx.check(ok, "C20.R1", "_viz_node: exactly one node statement per path", m.path, vn.lineno,
+    def prim(p, pred):
+        return [e for e in p.effects if isinstance(e, ast.Expr) and isinstance(e.value, ast.Call) and pred(e.value)]
+    # ---- R1 (path summaries: helpers extracted from _viz_node are inlined, locals are substituted away)
+    rps = [p for p in ctx.paths(f"{DQ}.render") if p.kind != "raise"]
+    ok = bool(rps)
+    for p in rps:
+        roots = prim(p, lambda c: call_name(c) == "_viz_node")
+        ok = ok and len(roots) == 1 and len(roots[0].value.args) == 3 and u(roots[0].value.args[0]) == f"{hp_}.root" and u(roots[0].value.args[1]) == hp_
+    ctx.check(ok, "C20.R1", "render: starts at the root", m.path, render.lineno, "rendering must draw the hierarchy from hugr.root", render)
+    vps = [p for p in ctx.paths(f"{DQ}._viz_node", bound=4096) if p.kind != "raise"]
+    op_txt = f"{nh_}[{np_}].op"
+    ok_one = ok_name = ok_label = ok_disp = ok_cluster = bool(vps)
+    rows_ok = {"inputs_row": bool(vps), "outputs_row": bool(vps)}
+    seen_branch = set()
+    for p in vps:
+        has_ch = [k for t, k in p.tests if u(t) in (f"{nh_}.children({np_})", f"len({nh_}.children({np_})) > 0")]
+        has_ch += [not k for t, k in p.tests if u(t) in (f"len({nh_}.children({np_})) <= 0", f"len({nh_}.children({np_})) == 0")]
+        nodes = prim(p, lambda c: call_name(c) == "node" and isinstance(c.func, ast.Attribute) and isinstance(c.func.value, ast.Name))
+        if len(nodes) != 1 or not has_ch:
+            ok_one = False
+            continue
+        seen_branch.add(has_ch[0])
+        call = nodes[0].value
+        recv = u(call.func.value)
+        if has_ch[0]:
+            # drawn inside its own cluster, after every child was drawn into that cluster
+            sg = p.find_effect(f"{ng_}.subgraph(name=f'cluster{{{np_}.idx}}')")
+            loops = [e for e in p.effects if isinstance(e, ast.For) and u(e.iter) == f"{nh_}.children({np_})"]
+            good = recv != ng_ and bool(sg) and len(loops) == 1 and isinstance(loops[0].target, ast.Name) and len(loops[0].body) == 1 and \
+                u(loops[0].body[0]) == f"self._viz_node({u(loops[0].target)}, {nh_}, {recv})" and not any(isinstance(x, (ast.If, ast.Continue, ast.Break)) for x in ast.walk(loops[0]))
+            ok_cluster = ok_cluster and good
+            ok_one = ok_one and recv != ng_
+        else:
+            ok_one = ok_one and recv == ng_
+        nm = u(call.args[0]) if call.args else ""
+        lab = kwarg(call, "label")
+        labels = [c for c in ast.walk(lab) if isinstance(c, ast.Call) and call_name(c) == "_format_html_label"] if lab is not None else []
+        ok_name = ok_name and nm in (f"f'{{{np_}.idx}}'", f"str({np_}.idx)") and len(labels) == 1
+        if len(labels) != 1:
+            ok_label = False
+            continue
+        lc = labels[0]
+        nl, ir, orow = kwarg(lc, "node_label"), kwarg(lc, "inputs_row"), kwarg(lc, "outputs_row")
+        ok_label = ok_label and nl is not None and ir is not None and orow is not None
+        # display name: the definition's short name for extension ops unless qualified names are configured
+        ext = [k for t, k in p.tests if u(t) == f"isinstance({op_txt}, AsExtOp)"]
+        qual = [k for t, k in p.tests if u(t) == "self.config.qualify_op_name"]
+        short = bool(ext) and ext[0] and bool(qual) and not qual[0]
+        want_nl = f"{op_txt}.op_def().name" if short else f"{op_txt}.name()"
+        ok_disp = ok_disp and nl is not None and unold(nl) == want_nl and bool(ext) and (not ext[0] or bool(qual))
+        # ---- R2: one cell per port
+        for var, arg, cnt, prefix in (("inputs_row", ir, "num_in_ports", "self._INPUT_PREFIX"), ("outputs_row", orow, "num_out_ports", "self._OUTPUT_PREFIX")):
+            ports = f"[str(c0) for c0 in range({nh_}.{cnt}({np_}))]"
+            some = [k for t, k in p.tests if unold(t) in (f"len({ports}) <= 0", f"len({ports}) == 0")]
+            some = [not k for k in some] + [k for t, k in p.tests if unold(t) in (f"len({ports}) > 0", ports)]
+            if arg is None or not some:
+                rows_ok[var] = False
+                continue
+            want_row = f"self._html_ports({ports}, {prefix})" if some[0] else "''"
+            rows_ok[var] = rows_ok[var] and unold(arg) == want_row
+    ctx.check(ok_one and seen_branch == {True, False}, "C20.R1", "_viz_node: exactly one node statement per path", m.path, vn.lineno,
               "a node with children is drawn once inside its cluster, a leaf once in the enclosing graph: never zero or two statements", vn)
-    for c in node_calls:
-        nm = u(c.args[0]) if c.args else ""
-        lab = kwarg(c, "label")
-        ok = nm in ("f'{node.idx}'", "str(node.idx)") and lab is not None and "html_label" in u(lab)
-        ctx.check(ok, "C20.R1", f"_viz_node: node statement named by index ({u(c.func.value)})", m.path, c.lineno,
-                  "node statements must be named str(node.idx) -- the name the edge endpoints refer to -- and carry the label", c, found=u(c)[:100])
-    labels = [c for c in calls_in(vn, "_format_html_label")]
-    ok = len(labels) == 2 and all(kwarg(c, "node_label") is not None and u(kwarg(c, "node_label")) == "op_name" and kwarg(c, "inputs_row") is not None and kwarg(c, "outputs_row") is not None for c in labels)
-    ctx.check(ok, "C20.R1", "_viz_node: label carries the display name and both port rows", m.path, vn.lineno, "", vn)
-    names = [s for s in ast.walk(vn) if isinstance(s, ast.Assign) and u(s.targets[0]) == "op_name"]
-    ok = sorted(u(s.value) for s in names) == ["op.name()", "op.op_def().name"] and any(isinstance(s, ast.Assign) and u(s) == "op = hugr[node].op" for s in ast.walk(vn))
-    ctx.check(ok, "C20.R1", "_viz_node: display name from the node's own op", m.path, vn.lineno, "", vn)
-    if branch:
-        withs = [n for n in branch[0].body if isinstance(n, ast.With)]
-        ok = len(withs) == 1 and "graph.subgraph(name=f'cluster{node.idx}')" in u(withs[0].items[0].context_expr)
-        if ok:
-            w = withs[0]
-            loops = [n for n in w.body if isinstance(n, ast.For)]
-            ok = len(loops) == 1 and u(loops[0].iter) in ch_alias and len(loops[0].body) == 1 and u(loops[0].body[0]) == f"self._viz_node({u(loops[0].target)}, hugr, sub)" \
-                and not any(isinstance(x, (ast.If, ast.Continue, ast.Break)) for x in ast.walk(loops[0]))
-        ctx.check(ok, "C20.R1", "_viz_node: one cluster per parent, every child recursed inside it", m.path, vn.lineno,
-                  "a node with children opens cluster<idx> and draws each child (no filter) into that cluster, so clusters nest as the hierarchy does", vn)
+    ctx.check(ok_name, "C20.R1", "_viz_node: node statement named by index", m.path, vn.lineno,
+              "node statements must be named str(node.idx) -- the name the edge endpoints refer to -- and carry the label", vn)
+    ctx.check(ok_label, "C20.R1", "_viz_node: label carries the display name and both port rows", m.path, vn.lineno, "", vn)
+    ctx.check(ok_disp, "C20.R1", "_viz_node: display name from the node's own op", m.path, vn.lineno, "", vn)
+    ctx.check(ok_cluster, "C20.R1", "_viz_node: one cluster per parent, every child recursed inside it", m.path, vn.lineno,
+              "a node with children opens cluster<idx> and draws each child (no filter) into that cluster, so clusters nest as the hierarchy does", vn)
     # ---- R2
-    want = {"in_ports": "[str(i) for i in range(hugr.num_in_ports(node))]", "out_ports": "[str(i) for i in range(hugr.num_out_ports(node))]"}
-    for var, expr in want.items():
-        a = [s for s in ast.walk(vn) if isinstance(s, ast.Assign) and u(s.targets[0]) == var]
-        ctx.check(len(a) == 1 and u(a[0].value) == expr, "C20.R2", f"_viz_node: {var}", m.path, vn.lineno, f"one cell per port: {var} = {expr}", vn, found=u(a[0].value) if a else "")
-    rows = {"inputs_row": ("in_ports", "self._INPUT_PREFIX"), "outputs_row": ("out_ports", "self._OUTPUT_PREFIX")}
-    for var, (ports, prefix) in rows.items():
-        a = [s for s in ast.walk(vn) if isinstance(s, ast.Assign) and u(s.targets[0]) == var]
-        ok = len(a) == 1 and f"self._html_ports({ports}, {prefix})" in u(a[0].value)
-        ctx.check(ok, "C20.R2", f"_viz_node: {var}", m.path, vn.lineno, f"{var} must render {ports} with {prefix}", vn, found=u(a[0].value) if a else "")
+    ctx.check(rows_ok["inputs_row"], "C20.R2", "_viz_node: in_ports", m.path, vn.lineno, "one cell per input port, rendered with the input prefix", vn)
+    ctx.check(rows_ok["outputs_row"], "C20.R2", "_viz_node: out_ports", m.path, vn.lineno, "one cell per output port, rendered with the output prefix", vn)
     hp = dr.methods.get("_html_ports")
-    src = u(hp) if hp else ""
-    ok = "port_id=id_prefix + port" in src and "for port in ports" in src and "port=port" in src
+    ok = False
+    if hp is not None:
+        pr, pf = hp.args.args[1].arg, hp.args.args[2].arg
+        ok = thas(ctx.cfn(f"{DQ}._html_ports"), f"''.join((self._HTML_PORT_TEMPLATE.format(port=c0, port_id={pf} + c0, back_colour=ANY_, font_colour=ANY_, border_width=ANY_, border_colour=ANY_, fontface=ANY_) for c0 in {pr}))")
     ctx.check(ok, "C20.R2", "_html_ports: one cell per port with id prefix+port", m.path, hp.lineno if hp else 1, "", hp)
     pre = {k: v.value for k, v in dr.class_assigns.items() if k in ("_INPUT_PREFIX", "_OUTPUT_PREFIX") and isinstance(v, ast.Constant)}
     ok = pre.get("_INPUT_PREFIX") == "in." and pre.get("_OUTPUT_PREFIX") == "out." and pre["_INPUT_PREFIX"] != pre["_OUTPUT_PREFIX"]
     ctx.check(ok, "C20.R2", "port id prefixes", m.path, dr.node.lineno, "input and output cells need distinct prefixes", dr.node, found=str(pre))
-    for name, want_src in (("_in_port_name", "return f'{p.node.idx}:{self._INPUT_PREFIX}{p.offset}'"), ("_out_port_name", "return f'{p.node.idx}:{self._OUTPUT_PREFIX}{p.offset}'")):
+    for name, pfx in (("_in_port_name", "self._INPUT_PREFIX"), ("_out_port_name", "self._OUTPUT_PREFIX")):
         fn = dr.methods.get(name)
-        ctx.check(fn is not None and u(real_body(fn)[-1]) == want_src, "C20.R3", f"{name}", m.path, fn.lineno if fn else 1,
+        ok = False
+        if fn is not None:
+            pa = fn.args.args[1].arg
+            qs = ctx.paths(f"{DQ}.{name}")
+            ok = bool(qs) and all(q.kind == "return" and q.value_text() == f"f'{{{pa}.node.idx}}:{{{pfx}}}{{{pa}.offset}}'" for q in qs)
+        ctx.check(ok, "C20.R3", f"{name}", m.path, fn.lineno if fn else 1,
                   "edge endpoints name <node index>:<prefix><offset>, the id of the port's cell", fn, found=u(real_body(fn)[-1]) if fn else "")
     # ---- R3
-    loops = [n for n in real_body(render) if isinstance(n, ast.For)]
-    ok = len(loops) == 1 and u(loops[0].iter) == "hugr.links()" and not any(isinstance(x, (ast.If, ast.Continue, ast.Break)) for x in ast.walk(loops[0]))
-    if ok:
+    ok = bool(rps)
+    after = bool(rps)
+    for p in rps:
+        loops = [e for e in p.effects if isinstance(e, ast.For) and u(e.iter) == f"{hp_}.links()"]
+        if len(loops) != 1 or not isinstance(loops[0].target, ast.Tuple) or len(loops[0].target.elts) != 2:
+            ok = False
+            continue
         lp = loops[0]
         sv, tv = u(lp.target.elts[0]), u(lp.target.elts[1])
-        calls = [c for c in calls_in(lp, "_viz_link")]
-        ok = len(calls) == 1 and [u(a) for a in calls[0].args] == [sv, tv, "kind", "graph"] and any(u(s) == f"kind = hugr.port_kind({sv})" for s in lp.body)
+        bps = summaries(lp.body)
+        ok = ok and bool(bps) and all(q.kind == "fall" and not q.tests for q in bps)
+        for q in bps:
+            calls = prim(q, lambda c: call_name(c) == "_viz_link")
+            ok = ok and len(calls) == 1 and [u(a) for a in calls[0].value.args[:3]] == [sv, tv, f"{hp_}.port_kind({sv})"] and len(calls[0].value.args) == 4
+        roots = [i for i, e in enumerate(p.effects) if isinstance(e, ast.Expr) and isinstance(e.value, ast.Call) and call_name(e.value) == "_viz_node"]
+        after = after and bool(roots) and p.effects.index(lp) > roots[0]
     ctx.check(ok, "C20.R3", "render: one _viz_link per link", m.path, render.lineno, "every link of hugr.links() is drawn, with the kind of its source port", render)
-    after = real_body(render).index(loops[0]) > [i for i, s in enumerate(real_body(render)) if roots and roots[0] in list(ast.walk(s))][0] if loops and roots else False
     ctx.check(after, "C20.R3", "render: nodes before links", m.path, render.lineno, "", render)
-    edges = [c for c in calls_in(vl) if call_name(c) == "edge"]
-    ok = len(edges) == 1 and [u(a) for a in edges[0].args[:2]] == ["self._out_port_name(src_port)", "self._in_port_name(tgt_port)"] and kwarg(edges[0], "label") is not None
-    in_branch = any(edges and edges[0] in list(ast.walk(n)) for n in ast.walk(vl) if isinstance(n, (ast.If, ast.Match, ast.For)))
-    ctx.check(ok and not in_branch, "C20.R3", "_viz_link: exactly one edge statement from out-port to in-port", m.path, vl.lineno,
-              "every kind must fall through to the single graph.edge(<source port name>, <target port name>, label=...)", vl)
-    ms = [n for n in ast.walk(vl) if isinstance(n, ast.Match)]
-    ok = len(ms) == 1
+    lpar = [a.arg for a in vl.args.args[1:5]]       # src_port, tgt_port, kind, graph
+    lps = [p for p in ctx.paths(f"{DQ}._viz_link") if p.kind != "raise"]
+    ok = bool(lps)
     handled = set()
-    if ok:
-        for c in ms[0].cases:
-            for n in ast.walk(c.pattern):
-                if isinstance(n, ast.MatchClass):
-                    handled.add(u(n.cls))
-        tys = prog.module("hugr.tys")
-        kind = tys.assigns.get("Kind")
-        members = set()
-        def flat(e):
-            if isinstance(e, ast.BinOp):
-                flat(e.left); flat(e.right)
-            else:
-                members.add(u(e))
-        if kind is not None:
-            flat(kind)
-        ok = handled == members and bool(members)
-        ctx.check(ok, "C20.R3", "_viz_link: kind match exhaustive", m.path, ms[0].lineno,
-                  "every member of tys.Kind needs an arm (an unhandled kind would leave `color` unbound or hit assert_never)", ms[0], expected=str(sorted(members)), found=str(sorted(handled)))
-        varm = [c for c in ms[0].cases if isinstance(c.pattern, ast.MatchClass) and u(c.pattern.cls) == "ValueKind"]
-        ok = len(varm) == 1 and any(isinstance(s, ast.Assign) and u(s.targets[0]) == "label" and u(s.value) in ("str(ty)", "f'{ty}'") for s in varm[0].body) \
-            and len(varm[0].pattern.patterns) == 1 and u(varm[0].pattern.patterns[0]) == "ty"
-        ctx.check(ok, "C20.R3", "_viz_link: value edges labelled by their type", m.path, ms[0].lineno, "", ms[0])
-        no_exit = not any(isinstance(s, (ast.Return, ast.Raise, ast.Continue)) for c in ms[0].cases for s in ast.walk(c) if not (isinstance(c.pattern, ast.MatchAs) and c.pattern.pattern is None))
-        ctx.check(no_exit, "C20.R3", "_viz_link: no arm skips the edge", m.path, ms[0].lineno, "", ms[0])
+    ok_val = False
+    no_exit = bool(lps)
+    for p in lps:
+        edges = prim(p, lambda c: call_name(c) == "edge")
+        good = len(edges) == 1 and [u(a) for a in edges[0].value.args[:2]] == [f"self._out_port_name({lpar[0]})", f"self._in_port_name({lpar[1]})"] \
+            and kwarg(edges[0].value, "label") is not None and u(edges[0].value.func.value) == lpar[3]
+        ok = ok and good
+        kinds = [t for t, k in p.tests if k and isinstance(t, ast.Call) and u(t.func) == "isinstance" and u(t.args[0]) == lpar[2]]
+        never = any(isinstance(e, ast.Expr) and isinstance(e.value, ast.Call) and u(e.value.func) == "assert_never" for e in p.effects)
+        if kinds:
+            from ..paths import _isinstance_parts
+            handled |= {x.split(".")[-1] for x in _isinstance_parts(kinds[-1])[1]}
+            if "ValueKind" in u(kinds[-1].args[1]) and good:
+                ok_val = u(kwarg(edges[0].value, "label")) in (f"str({lpar[2]}.ty)", f"f'{{{lpar[2]}.ty}}'")
+        elif not never:
+            no_exit = False
+        if p.kind != "fall":
+            no_exit = False
+    ctx.check(ok, "C20.R3", "_viz_link: exactly one edge statement from out-port to in-port", m.path, vl.lineno,
+              "every kind must fall through to the single graph.edge(<source port name>, <target port name>, label=...)", vl)
+    tys_m = prog.module("hugr.tys")
+    kind = tys_m.assigns.get("Kind")
+    members = set()
+
+    def flat(e):
+        if isinstance(e, ast.BinOp):
+            flat(e.left)
+            flat(e.right)
+        else:
+            members.add(u(e))
+    if kind is not None:
+        flat(kind)
+    ctx.check(handled == members and bool(members), "C20.R3", "_viz_link: kind match exhaustive", m.path, vl.lineno,
+              "every member of tys.Kind needs an arm (an unhandled kind would leave `color` unbound or hit assert_never)", vl, expected=str(sorted(members)), found=str(sorted(handled)))
+    ctx.check(ok_val, "C20.R3", "_viz_link: value edges labelled by their type", m.path, vl.lineno, "", vl)
+    ctx.check(no_exit, "C20.R3", "_viz_link: no arm skips the edge", m.path, vl.lineno, "", vl)
     # ---- R4: effect analysis over every method of the renderer
     bad = []
     for name, fn in dr.methods.items():
@@ -196,9 +235,27 @@ def run(ctx) -> None:
     ctx.check(not stray, "C20.R5", "config reaches only palette colours and qualify_op_name", m.path, stray[0].lineno if stray else dr.node.lineno,
               "rendering must be independent of the configuration except for colours and the extension prefix of operation names", stray[0] if stray else None,
               detail=f"{allowed} uses")
-    q = [n for n in ast.walk(vn) if isinstance(n, ast.If) and "qualify_op_name" in u(n.test)]
-    ok = len(q) == 1 and u(q[0].test) == "isinstance(op, AsExtOp) and (not self.config.qualify_op_name)"
-    pal_struct = [n for n in ast.walk(dr.node) if isinstance(n, (ast.If, ast.While, ast.For, ast.IfExp)) and "palette" in u(n.test if not isinstance(n, ast.For) else n.iter)]
+    # the configuration steers control flow in one place only: qualify_op_name, asked for extension ops when the display name is chosen
+    ok = True
+    pal_struct = []
+    seen_q = False
+    for name in dr.methods:
+        try:
+            qs = ctx.paths(f"{R}.DotRenderer.{name}", bound=4096)
+        except Exception:
+            qs = []
+        for q_ in qs:
+            for t, k in q_.tests:
+                txt = u(t)
+                if "self.config" not in txt:
+                    continue
+                if "palette" in txt:
+                    pal_struct.append(t)
+                elif txt == "self.config.qualify_op_name" and any(u(t2).startswith("isinstance(") and "AsExtOp" in u(t2) and k2 for t2, k2 in q_.tests):
+                    seen_q = True
+                else:
+                    ok = False
+    ok = ok and seen_q
     ctx.check(ok and not pal_struct, "C20.R5", "qualify_op_name only selects the display name; palette never steers control flow", m.path, vn.lineno, "", vn)
     from .. import lints
     lints.arm(ctx)
